@@ -194,7 +194,8 @@ def run(ctx):
             ok = is_eq or is_catch
             if is_catch and not is_eq:
                 blk = getattr(n.ast, "_parent", None)
-                ok = any(isinstance(s, ast.Assign) and src(s.targets[0]) == "%s.position" % ihv and "element_labels" in src(s.value) for s in blk.body)
+                from ..source import inline_temporaries
+                ok = any(isinstance(s, ast.Assign) and src(s.targets[0]) == "%s.position" % ihv and "element_labels" in inline_temporaries(s.value, fn, s.lineno) for s in blk.body)
             ctx.check("C05.c.advance-guard", SM, unit, first_line(n.ast) + " under " + (conds[0][:40] if conds else "nothing"), ok,
                       "a competing head proceeds only if its action is identical to the winner's (`is_equal`) or it jumps to its failure-catch label", line=n.line)
     aborts = [n for n in cfg.nodes if fate(n) == "abort" and any(n.ast is y for x in il.body for y in ast.walk(x))]
